@@ -655,6 +655,8 @@ type symRun struct {
 	vars   map[string]string
 	fields map[string]string // stored field -> canonical name
 	asts   map[string]ast.Expr // local -> the expression it was last assigned (single-valued assignments)
+	subs   map[string][2]string // rendered difference "(a - b)" -> its operands
+	rec    func(string)         // when set: every call evaluated is reported once, in evaluation order
 	order  []string
 	ok     bool
 	depth  int
@@ -708,8 +710,19 @@ func (r *symRun) expr(e ast.Expr) string {
 	case *ast.UnaryExpr:
 		return x.Op.String() + r.expr(x.X)
 	case *ast.BinaryExpr:
-		return "(" + r.expr(x.X) + " " + x.Op.String() + " " + r.expr(x.Y) + ")"
+		a, b := r.expr(x.X), r.expr(x.Y)
+		v := "(" + a + " " + x.Op.String() + " " + b + ")"
+		if x.Op == token.SUB {
+			if r.subs == nil {
+				r.subs = map[string][2]string{}
+			}
+			r.subs[v] = [2]string{a, b}
+		}
+		return v
 	case *ast.CallExpr:
+		if res, ok := r.inlineFunc(x); ok && len(res) == 1 {
+			return res[0]
+		}
 		// zero-argument one-line helper of the same receiver type: inline its returned expression
 		if se, ok := x.Fun.(*ast.SelectorExpr); ok && len(x.Args) == 0 && r.depth < 2 {
 			if id, ok := se.X.(*ast.Ident); ok && id.Name == r.recv && r.recv != "" {
@@ -733,9 +746,111 @@ func (r *symRun) expr(e ast.Expr) string {
 		for i, a := range x.Args {
 			args[i] = r.expr(a)
 		}
-		return r.expr(x.Fun) + "(" + strings.Join(args, ", ") + ")"
+		v := r.expr(x.Fun) + "(" + strings.Join(args, ", ") + ")"
+		if r.rec != nil && !isVerifOrLog(x) {
+			r.rec("eval " + v)
+		}
+		return v
 	}
 	return "?" + srcText(r.fset, e)
+}
+
+// inlineFunc evaluates a call to a plain function of the same package whose body is straight-line (assignments to
+// locals, then one return): parameters bound to the argument values, calls made inside reported through rec.
+func (r *symRun) inlineFunc(ce *ast.CallExpr) ([]string, bool) {
+	id, ok := ce.Fun.(*ast.Ident)
+	if !ok || r.depth >= 2 || r.rec == nil {
+		return nil, false
+	}
+	fd, _ := findFunc(r.pkg, "", id.Name)
+	if fd == nil || len(fd.Body.List) == 0 || ce.Ellipsis.IsValid() {
+		return nil, false
+	}
+	for i, st := range fd.Body.List { // shape check first: nothing is evaluated (or reported) unless it fits
+		switch x := st.(type) {
+		case *ast.AssignStmt:
+			if x.Tok != token.DEFINE && x.Tok != token.ASSIGN {
+				return nil, false
+			}
+			for _, l := range x.Lhs {
+				if _, ok := l.(*ast.Ident); !ok {
+					return nil, false
+				}
+			}
+			if len(x.Rhs) != len(x.Lhs) && len(x.Rhs) != 1 {
+				return nil, false
+			}
+		case *ast.ReturnStmt:
+			if i != len(fd.Body.List)-1 || len(x.Results) == 0 {
+				return nil, false
+			}
+		case *ast.ExprStmt:
+			if c, ok := x.X.(*ast.CallExpr); !ok || !isVerifOrLog(c) {
+				return nil, false
+			}
+		default:
+			return nil, false
+		}
+	}
+	if _, ok := fd.Body.List[len(fd.Body.List)-1].(*ast.ReturnStmt); !ok {
+		return nil, false
+	}
+	sub := &symRun{pkg: r.pkg, fset: r.fset, params: map[string]string{}, vars: map[string]string{}, fields: map[string]string{}, ok: true, depth: r.depth + 1, rec: r.rec}
+	if r.subs == nil {
+		r.subs = map[string][2]string{}
+	}
+	sub.subs = r.subs
+	pi := 0
+	if fd.Type.Params != nil {
+		for _, f := range fd.Type.Params.List {
+			for _, nm := range f.Names {
+				if pi < len(ce.Args) {
+					sub.params[nm.Name] = r.expr(ce.Args[pi])
+				}
+				pi++
+			}
+		}
+	}
+	for _, st := range fd.Body.List {
+		switch x := st.(type) {
+		case *ast.AssignStmt:
+			sub.assign(x)
+		case *ast.ReturnStmt:
+			var res []string
+			for _, e := range x.Results {
+				res = append(res, sub.expr(e))
+			}
+			return res, true
+		}
+	}
+	return nil, false
+}
+
+// assign evaluates an assignment to local identifiers (each right-hand side once)
+func (r *symRun) assign(x *ast.AssignStmt) {
+	var vals []string
+	if len(x.Rhs) == len(x.Lhs) {
+		for _, e := range x.Rhs {
+			vals = append(vals, r.expr(e))
+		}
+	} else {
+		if ce, ok := x.Rhs[0].(*ast.CallExpr); ok {
+			if res, ok := r.inlineFunc(ce); ok && len(res) == len(x.Lhs) {
+				vals = res
+			}
+		}
+		if vals == nil {
+			v := r.expr(x.Rhs[0])
+			for k := range x.Lhs {
+				vals = append(vals, fmt.Sprintf("%s#%d", v, k))
+			}
+		}
+	}
+	for k, l := range x.Lhs {
+		if id, ok := l.(*ast.Ident); ok && id.Name != "_" {
+			r.vars[id.Name] = vals[k]
+		}
+	}
 }
 
 func summarize(pkgDir string, fd *ast.FuncDecl) []string {
@@ -930,12 +1045,12 @@ func (r *symRun) cond(e ast.Expr) string {
 			if isZeroLit(a) {
 				a, b = b, a
 			}
+			l, rr := r.expr(a), r.expr(b)
 			if isZeroLit(b) { // d == 0 with d = p - q  (wrap-around integers: the same as p == q)
-				if sub, ok := r.resolveAST(a).(*ast.BinaryExpr); ok && sub.Op == token.SUB {
-					a, b = sub.X, sub.Y
+				if pq, ok := r.subs[l]; ok {
+					l, rr = pq[0], pq[1]
 				}
 			}
-			l, rr := r.expr(a), r.expr(b)
 			if rr < l {
 				l, rr = rr, l
 			}
@@ -947,15 +1062,9 @@ func (r *symRun) cond(e ast.Expr) string {
 
 func (w *asWalker) preludeLines(st ast.Stmt) []string {
 	r := w.symEnv()
-	var calls []string
-	collect := func(n ast.Node) {
-		ast.Inspect(n, func(x ast.Node) bool {
-			if ce, ok := x.(*ast.CallExpr); ok && !isVerifOrLog(ce) {
-				calls = append(calls, "eval "+r.expr(ce))
-			}
-			return true
-		})
-	}
+	var lines []string
+	r.rec = func(l string) { lines = append(lines, l) }
+	defer func() { r.rec = nil }()
 	switch x := st.(type) {
 	case *ast.DeclStmt: // var x T : pure
 		if gd, ok := x.Decl.(*ast.GenDecl); ok && gd.Tok == token.VAR {
@@ -979,39 +1088,11 @@ func (w *asWalker) preludeLines(st ast.Stmt) []string {
 				allIdent = false
 			}
 		}
-		if !allIdent {
+		if !allIdent || (len(x.Rhs) != len(x.Lhs) && len(x.Rhs) != 1) {
 			break
 		}
-		for _, e := range x.Rhs {
-			collect(e)
-		}
-		var vals []string
-		if len(x.Rhs) == len(x.Lhs) {
-			for _, e := range x.Rhs {
-				vals = append(vals, r.expr(e))
-			}
-		} else if len(x.Rhs) == 1 {
-			v := r.expr(x.Rhs[0])
-			for k := range x.Lhs {
-				vals = append(vals, fmt.Sprintf("%s#%d", v, k))
-			}
-		} else {
-			break
-		}
-		for k, l := range x.Lhs {
-			if id := l.(*ast.Ident); id.Name != "_" {
-				r.vars[id.Name] = vals[k]
-				if len(x.Rhs) == len(x.Lhs) {
-					if r.asts == nil {
-						r.asts = map[string]ast.Expr{}
-					}
-					r.asts[id.Name] = x.Rhs[k]
-				} else {
-					delete(r.asts, id.Name)
-				}
-			}
-		}
-		return calls
+		r.assign(x)
+		return lines
 	case *ast.IfStmt:
 		if x.Init != nil || x.Else != nil {
 			break
@@ -1027,17 +1108,253 @@ func (w *asWalker) preludeLines(st ast.Stmt) []string {
 		}
 		if len(rest) == 1 {
 			if ret, ok := rest[0].(*ast.ReturnStmt); ok {
-				collect(x.Cond)
+				c := r.cond(x.Cond)
 				var res []string
 				for _, e := range ret.Results {
-					collect(e)
 					res = append(res, r.expr(e))
 				}
-				return append(calls, "if "+r.cond(x.Cond)+" return "+strings.Join(res, ", "))
+				return append(lines, "if "+c+" return "+strings.Join(res, ", "))
 			}
 		}
 	}
 	return []string{"stmt " + preludeText(w.fset, st)}
+}
+
+// ---- write discipline of Environment.SaveGlobals: counts that do not depend on how the line is built.
+type wdState struct {
+	dst       string
+	unchecked int
+	noNewline int
+	other     int
+	maxIter   int // max number of writes on a path through one iteration of the binding loop
+	outside   int
+}
+
+func (d *wdState) isWriteCall(ce *ast.CallExpr) bool {
+	if isVerifOrLog(ce) {
+		return false
+	}
+	for _, a := range ce.Args {
+		if id, ok := a.(*ast.Ident); ok && id.Name == d.dst {
+			return true
+		}
+	}
+	if se, ok := ce.Fun.(*ast.SelectorExpr); ok {
+		if id, ok := se.X.(*ast.Ident); ok && id.Name == d.dst {
+			return true
+		}
+	}
+	return false
+}
+
+// writesIn lists the write calls directly in a simple statement / expression (not inside nested blocks)
+func (d *wdState) writesIn(n ast.Node) []*ast.CallExpr {
+	var out []*ast.CallExpr
+	if n == nil {
+		return nil
+	}
+	ast.Inspect(n, func(x ast.Node) bool {
+		switch c := x.(type) {
+		case *ast.BlockStmt, *ast.FuncLit:
+			return false
+		case *ast.CallExpr:
+			if d.isWriteCall(c) {
+				out = append(out, c)
+			}
+		}
+		return true
+	})
+	return out
+}
+
+func (d *wdState) classifyWrite(ce *ast.CallExpr) {
+	name := ""
+	if se, ok := ce.Fun.(*ast.SelectorExpr); ok {
+		if id, ok := se.X.(*ast.Ident); ok {
+			name = id.Name + "." + se.Sel.Name
+		}
+	}
+	switch name {
+	case "fmt.Fprintf":
+		if len(ce.Args) < 2 {
+			d.noNewline++
+		} else if f, ok := stringExpr("object", ce.Args[1], 0); !ok || !strings.HasSuffix(f, "\n") {
+			d.noNewline++
+		}
+	case "fmt.Fprintln":
+	case "fmt.Fprint", d.dst + ".Write", "io.WriteString", d.dst + ".WriteString":
+		last := ce.Args[len(ce.Args)-1]
+		if f, ok := stringExpr("object", last, 0); !ok || !strings.HasSuffix(f, "\n") {
+			if be, ok := last.(*ast.BinaryExpr); ok && be.Op == token.ADD {
+				if t, ok := stringExpr("object", be.Y, 0); ok && strings.HasSuffix(t, "\n") {
+					return
+				}
+			}
+			d.noNewline++
+		}
+	default:
+		d.other++ // the writer handed to something the translator does not know
+	}
+}
+
+// errChecked: `..., e := write(...)` followed by `if e != nil { ...; return ..., e }`
+func errChecked(st ast.Stmt, next ast.Stmt) bool {
+	as, ok := st.(*ast.AssignStmt)
+	if !ok || len(as.Lhs) == 0 {
+		return false
+	}
+	id, ok := as.Lhs[len(as.Lhs)-1].(*ast.Ident)
+	if !ok || id.Name == "_" {
+		return false
+	}
+	ifs, ok := next.(*ast.IfStmt)
+	if !ok || ifs.Init != nil {
+		return false
+	}
+	be, ok := ifs.Cond.(*ast.BinaryExpr)
+	if !ok || be.Op != token.NEQ {
+		return false
+	}
+	a, ok1 := be.X.(*ast.Ident)
+	nl, ok2 := be.Y.(*ast.Ident)
+	if !ok1 || !ok2 || a.Name != id.Name || nl.Name != "nil" || len(ifs.Body.List) == 0 {
+		return false
+	}
+	ret, ok := ifs.Body.List[len(ifs.Body.List)-1].(*ast.ReturnStmt)
+	if !ok {
+		return false
+	}
+	for _, r := range ret.Results {
+		found := false
+		ast.Inspect(r, func(x ast.Node) bool {
+			if i, ok := x.(*ast.Ident); ok && i.Name == id.Name {
+				found = true
+			}
+			return true
+		})
+		if found {
+			return true
+		}
+	}
+	return false
+}
+
+// block walks a statement list; cur = writes so far on this path of the current iteration.  Returns the count on
+// the fall-through path, or -1 when every path leaves the block (continue / return / break).
+func (d *wdState) block(stmts []ast.Stmt, cur int, inLoop bool) int {
+	stmts = flatten(stmts)
+	for i, st := range stmts {
+		switch x := st.(type) {
+		case *ast.BlockStmt:
+			if cur = d.block(x.List, cur, inLoop); cur < 0 {
+				return -1
+			}
+		case *ast.IfStmt:
+			for _, ce := range d.writesIn(x.Init) {
+				d.classifyWrite(ce)
+				d.unchecked++ // not the flattened `if _, err := w(); err != nil` form
+				cur++
+			}
+			for _, ce := range d.writesIn(x.Cond) {
+				d.classifyWrite(ce)
+				d.unchecked++
+				cur++
+			}
+			a := d.block(x.Body.List, cur, inLoop)
+			b := cur
+			switch e := x.Else.(type) {
+			case *ast.BlockStmt:
+				b = d.block(e.List, cur, inLoop)
+			case *ast.IfStmt:
+				b = d.block([]ast.Stmt{e}, cur, inLoop)
+			}
+			if a < 0 && b < 0 {
+				return -1
+			}
+			cur = max(a, b)
+		case *ast.RangeStmt, *ast.ForStmt:
+			var body *ast.BlockStmt
+			if r, ok := x.(*ast.RangeStmt); ok {
+				body = r.Body
+			} else {
+				body = x.(*ast.ForStmt).Body
+			}
+			if inLoop { // a loop inside the binding loop: any write in it may repeat
+				n := 0
+				ast.Inspect(body, func(y ast.Node) bool {
+					if ce, ok := y.(*ast.CallExpr); ok && d.isWriteCall(ce) {
+						d.classifyWrite(ce)
+						n++
+					}
+					return true
+				})
+				if n > 0 {
+					cur += 99
+				}
+			} else {
+				d.block(body.List, 0, true)
+			}
+		case *ast.BranchStmt, *ast.ReturnStmt:
+			for _, ce := range d.writesIn(st) {
+				d.classifyWrite(ce)
+				d.unchecked++
+				cur++
+			}
+			if inLoop {
+				d.maxIter = max(d.maxIter, cur)
+			}
+			return -1
+		case *ast.SwitchStmt, *ast.TypeSwitchStmt, *ast.SelectStmt, *ast.DeferStmt, *ast.GoStmt:
+			n := 0
+			ast.Inspect(st, func(y ast.Node) bool {
+				if ce, ok := y.(*ast.CallExpr); ok && d.isWriteCall(ce) {
+					d.classifyWrite(ce)
+					n++
+				}
+				return true
+			})
+			if n > 0 {
+				d.other += n // not analysed: counted as unknown uses
+				cur += n
+			}
+		default:
+			ws := d.writesIn(st)
+			for _, ce := range ws {
+				d.classifyWrite(ce)
+				var next ast.Stmt
+				if i+1 < len(stmts) {
+					next = stmts[i+1]
+				}
+				if len(ws) != 1 || callOf(st) != ce || !errChecked(st, next) {
+					d.unchecked++
+				}
+				if inLoop {
+					cur++
+				} else {
+					d.outside++
+				}
+			}
+		}
+	}
+	if inLoop {
+		d.maxIter = max(d.maxIter, cur)
+	}
+	return cur
+}
+
+func writeDiscipline(fd *ast.FuncDecl) []string {
+	d := &wdState{}
+	if fd.Type.Params != nil && len(fd.Type.Params.List) > 0 && len(fd.Type.Params.List[0].Names) > 0 {
+		d.dst = fd.Type.Params.List[0].Names[0].Name
+	}
+	d.block(fd.Body.List, 0, false)
+	return []string{
+		fmt.Sprintf("writes outside the loop over the bindings = %d", d.outside),
+		fmt.Sprintf("max writes on a path through one iteration = %d", d.maxIter),
+		fmt.Sprintf("writes whose error is not checked and returned right away = %d", d.unchecked),
+		fmt.Sprintf("writes not ending in a newline = %d", d.noNewline),
+		fmt.Sprintf("other uses of the writer = %d", d.other),
+	}
 }
 
 func genAutoSave() {
@@ -1112,45 +1429,9 @@ func genAutoSave() {
 	if eg == nil {
 		fatal("object.Environment.SaveGlobals not found")
 	}
-	dst := ""
-	if eg.Type.Params != nil && len(eg.Type.Params.List) > 0 && len(eg.Type.Params.List[0].Names) > 0 {
-		dst = eg.Type.Params.List[0].Names[0].Name
-	}
-	var uses []string
-	ast.Inspect(eg.Body, func(x ast.Node) bool {
-		switch n := x.(type) {
-		case *ast.CallExpr:
-			for _, a := range n.Args {
-				if id, ok := a.(*ast.Ident); ok && id.Name == dst {
-					if isVerifOrLog(n) {
-						continue
-					}
-					// keep callee and the format string only
-					callee := srcText(efset, n.Fun)
-					fmtarg := ""
-					if len(n.Args) > 1 {
-						if s, ok := stringExpr("object", n.Args[1], 0); ok {
-							fmtarg = " " + strconv.Quote(s)
-						}
-					}
-					uses = append(uses, callee+"("+dst+fmtarg+")")
-				}
-			}
-			if se, ok := n.Fun.(*ast.SelectorExpr); ok {
-				if id, ok := se.X.(*ast.Ident); ok && id.Name == dst {
-					uses = append(uses, srcText(efset, n.Fun))
-				}
-			}
-		}
-		return true
-	})
-	b.WriteString("(* every use of the destination writer inside object.Environment.SaveGlobals (callee, format):\n   each is one fmt.Fprintf, i.e. one Write call per saved binding, each ending in a newline *)\nDefinition saveglobals_writes : list string :=\n  [")
-	for i, u := range uses {
-		if i > 0 {
-			b.WriteString(";\n   ")
-		}
-		b.WriteString(coqString(u))
-	}
+	_ = efset
+	b.WriteString("(* how object.Environment.SaveGlobals uses its destination writer, whatever builds the text: the writes are\n   fmt.Fprint* / Write calls on it inside the loop over the bindings, at most one on any path through one iteration,\n   each with its error checked by the very next statement and returned, each ending in a newline *)\nDefinition saveglobals_writes : list string :=\n  [")
+	writeList(writeDiscipline(eg))
 	b.WriteString("].\n")
 	emit("Gen_AutoSave.v", b.String())
 }
